@@ -275,6 +275,16 @@ def default_lock_id(prog, body, t, fn):
             cur_body, t0 = r
             t0 = strip_wrap(t0)
             continue
+        if t0[0] == "param" and not cur_body.is_closure():
+            # a helper that is handed the mutex: resolve through its (crate-local) callers
+            callers = prog.callers(cur_body)
+            ids = set()
+            for cs in callers:
+                at = prog.bp(cs.body).arg_term(cs.bb, t0[1] - 1)
+                ids.add(default_lock_id(prog, cs.body, at, fn))
+            if len(ids) == 1 and not next(iter(ids)).startswith("type:"):
+                return next(iter(ids))
+            break
         break
     # fall back on the locked type
     targ = fn["args"][0] if fn.get("args") else "?"
